@@ -22,3 +22,6 @@ REG['C17'] = check_macros.run
 
 from . import check_c12
 REG['C12'] = check_c12.run
+
+from . import check_c02
+REG['C02'] = check_c02.run
